@@ -8,7 +8,7 @@ Tr == ndJsonDeserialize(IOEnv.TRACE)
 VARIABLES l, dead
 tvars == <<l, dead, live>>
 Init == l = 1 /\ dead = TRUE /\ live = {}
-Act(r) == CASE r.ev = "alloc" -> Alloc(r.h, r.hi, r.lo, r.req, r.usable, r.g, r.null)
+Act(r) == CASE r.ev = "alloc" -> Alloc(r.h, r.hi, r.lo, <<r.rm, r.req>>, <<r.um, r.usable>>, r.g, r.null)
             [] r.ev = "free" -> Free(r.h, r.hi, r.lo)
             [] r.ev = "clear" -> Clear(r.h)
             [] r.ev = "end" -> live = {} /\ UNCHANGED live        \* everything was given back
